@@ -11,3 +11,4 @@ open HmcVerif.C16
 #print axioms recorded_step_generated_proposal
 #print axioms learning_rate_ok_iff
 #print axioms learning_rate_nan_refused
+#print axioms update_landing_on_zero_is_floored
